@@ -168,6 +168,8 @@ def check(repo, tier):
                         ks = [o for o in (e['a'], e['b']) if isinstance(o, Arr) and 'expm_of' in o.tags]
                         if not ks:
                             continue
+                        if len(ks) == 2:
+                            continue          # a product of two propagators (exp(aG) exp(bG), itself a propagator): not an application to the state
                         info = prop_info(ks[0])
                         if info is None:
                             word.append(None)
@@ -266,6 +268,14 @@ def check(repo, tier):
                         kinds = {a_.origin for a_ in anc.values() if a_.ndim == 0 and a_.origin in ('norm', 'amax')}
                         if not kinds:
                             # (neither np.linalg.norm nor a maximum of column sums reaches the state: the norm may be computed in a way this rule does not follow)
+                            # refuted when nothing at all computes a norm in the whole run: no call of TT.norm, no np.linalg.norm / maximum event, and no computed scalar
+                            # among the ancestors of the returned first core (the option then has no effect); otherwise the way the norm is formed is not one this rule follows
+                            any_norm = any(e_['kind'] == 'norm' or (e_['kind'] == 'call' and e_['callee'].name == 'norm') for e_ in sc.ctx.events)
+                            scalars = [a_ for a_ in anc.values() if a_.ndim == 0 and 'value' not in a_.tags]
+                            if not any_norm and not scalars:
+                                run.oblige('D4', (entry, scen, 'normalised'), False)
+                                run.add(F(entry, 'D4', 'normalisation', f'{scen}: normalize={nz} has no effect: no norm is computed anywhere on the path and the returned state is not scaled'))
+                                continue
                             raise AnalysisError(f'{scen}: no norm computation is recognised in the returned state although normalize={nz}')
                         good = ('amax' in kinds) if nz == 1 else ('norm' in kinds and 'amax' not in kinds)
                         run.oblige('D4', (entry, scen, 'normalised'), good)
